@@ -13,6 +13,8 @@ reference models mc.ref.rsa / dsa / ec / der (pure Python, RFC 8017, FIPS 186-4,
                                  (nonce from a tape: boundary draws, rejected draws, first-octet sweep) and RFC 6979,
                                  encodings binary and DER, SHA-1/SHA-2/SHA-3 hashes.  Candidates: bit flips, lengths,
                                  (r, s) boundary pairs, hand-made BER/DER re-encodings.
+  reuse (_c04_reuse.py)          one scheme object (15-24 configurations), every history of up to 3 (thorough: 4) sign()/verify()
+                                 calls with differing hash algorithms / messages; each outcome equals a fresh object's.
   EdDSA (_c04_eddsa.py)          Ed25519 / Ed448, pure / context (0, 1, 255 octets) / prehash; candidates from genuine
                                  signatures, re-encoded public keys, and the crafted small-order grid (A x R x S).
 
@@ -33,6 +35,7 @@ from . import _c04_base as B
 from . import _c04_rsa as RSA
 from . import _c04_dss as DSS
 from . import _c04_eddsa as ED
+from . import _c04_reuse as RU
 
 LEVEL = "exploration"
 RULE = ("complete enumeration of the stated grids: scheme x key x hash x (MGF, salt length | mode, encoding | prehash, context) "
@@ -131,6 +134,11 @@ def dss_plan(q):
                     plan.append(((4 * c + rc) * len(ms), ("sign", kn, mode, enc, [hn], ms)))
                 if q and kn not in big:
                     plan.append((4 * c + rc, ("sign", kn, mode, enc, ["sha256"], ["empty"])))
+        # boundary private keys (1, 2, order-2, order-1): sign, verify, and verify under the key with the negated public point
+        for tag in DSS.BOUNDARY:
+            for mode in ("det", "fips"):
+                for enc in (("binary",) if q else ("binary", "der")):
+                    plan.append((4 * c + 2 * rc, ("sign", "%s/x=%s" % (kn, tag), mode, enc, ["sha256"], ["asc33"])))
         # candidate alphabets on the RFC 6979 signature
         for enc in ("binary", "der"):
             nbits = 16 * DSS.obytes(DSS._KEYS[kn]) + (64 if enc == "der" else 0)
@@ -201,7 +209,8 @@ def run(ctx):
         return
     phases = {"selftests_and_keys": round(time.time() - t0, 1)}
     nb = max(32, ctx.workers * 5)
-    for name, mod, plan in (("dss", DSS, dss_plan(q)), ("rsa", RSA, rsa_plan(q)), ("eddsa", ED, ed_plan(q))):
+    for name, mod, plan in (("dss", DSS, dss_plan(q)), ("rsa", RSA, rsa_plan(q)), ("eddsa", ED, ed_plan(q)),
+                            ("reuse", RU, RU.plan(q))):
         t = time.time()
         ctx.pmap(mod.worker, _balance(plan, nb))
         phases[name] = round(time.time() - t, 1)
@@ -222,6 +231,10 @@ def run(ctx):
     dsskeys = {c[1] for c in cl if c[0] in ("dsa", "ecdsa")}
     ctx.require(len(dsskeys & {"dsa1024_160", "dsa2048_224", "dsa2048_256", "dsa3072_256"}) == 4, "not all four DSA (L,N) pairs were used")
     ctx.require(set(DSS.CURVES) <= dsskeys, "not all five NIST curves were used")
+    ctx.require({"%s/x=%s" % (k, t) for k in list(DSS.CURVES) + ["dsa1024_160", "dsa2048_224", "dsa2048_256", "dsa3072_256"]
+                 for t in DSS.BOUNDARY} <= dsskeys, "not all boundary private keys (1, 2, q-2, q-1) were used")
+    ctx.require(len(a.distinct.get("reuse_schemes", ())) == len(RU.schemes(q)) and n.get("reuse_histories", 0) >= 9 * 91 * len(RU.schemes(q)),
+                "object-reuse histories: not every scheme object was driven through every history")
     ctx.require({(c[2], c[3]) for c in cl if c[0] in ("dsa", "ecdsa") and c[2] in ("det", "fips")} ==
                 {(m, e) for m in ("det", "fips") for e in ("binary", "der")}, "not all (mode, encoding) pairs were used")
     reasons = {c[6] for c in cl if c[0] in ("v15", "v15-forge", "pss", "pss-forge")}
@@ -262,6 +275,10 @@ def run(ctx):
         "sign_calls": n.get("sign_calls", 0),
         "distinct_sign_configurations": len(a.distinct.get("sign_cfgs", ())),
         "fips_entropy_tapes": n.get("tapes", 0),
+        "object_reuse": {"scheme_objects": sorted(a.distinct.get("reuse_schemes", ())), "histories": n.get("reuse_histories", 0),
+                         "calls": n.get("reuse_calls", 0), "depth": 3 if q else 4,
+                         "alphabet": [RU.opname(o) for o in RU.ALPHABET],
+                         "oracle": "outcome of every call equals the outcome of the same call on a fresh object"},
         "eddsa_crafted_small_order_cases": n.get("crafted_cases", 0),
         "verify_outcomes": {k: n.get(k, 0) for k in ("rsa_accept", "rsa_reject", "rsa_other", "dss_accept", "dss_reject", "dss_other",
                                                      "ed_accept", "ed_reject", "ed_other")},
@@ -301,5 +318,10 @@ def replay(case, acc):
         DSS.replay(case, acc)
     elif p.startswith("ed"):
         ED.replay(case, acc)
+    elif p == "reuse":
+        RSA.build_keys(acc)
+        DSS.build_keys(acc)
+        ED.build_keys(acc)
+        RU.replay(case, acc)
     else:
         acc.error("unknown replay part %r" % p)
